@@ -137,6 +137,24 @@ struct hook_tracer : public verif::tracer
     void def_ov_eq(const void *, var a, var b, lit res) override { hooks.push_back("{\"k\":\"oveq\",\"a\":" + std::to_string(a) + ",\"b\":" + std::to_string(b) + ",\"ret\":" + std::to_string(index(res)) + "}"); }
 };
 
+// a theory of the caller's own that reports conflicts outside propagation (what the executor does when a delay or a failure
+// contradicts the plan): the conflict is a clause of literals that are all false now
+struct ext_theory : public theory
+{
+    explicit ext_theory(sat_core &s) : theory(s) {}
+    bool conflict(const std::vector<lit> &c)
+    {
+        cnfl = c;
+        return backtrack_analyze_and_backjump();
+    }
+
+private:
+    bool propagate(const lit &) override { return true; }
+    bool check() override { return true; }
+    void push() override {}
+    void pop() override {}
+};
+
 struct net
 {
     sat_core sat;
@@ -144,6 +162,7 @@ struct net
     ov_theory ov;
     idl_theory idl;
     rdl_theory rdl;
+    ext_theory ext;
     std::vector<std::unique_ptr<ov_val>> values;
     std::vector<var> ov_vars;
     std::vector<std::vector<int>> ov_doms;
@@ -153,7 +172,7 @@ struct net
     std::vector<bool> stable_stack; // 'stable' at the moment of each standing assume
     std::vector<bool> fresh_stack;  // whether each standing decision was unassigned when it was taken
 
-    net(size_t dl_size) : sat(), lra(sat), ov(sat), idl(sat, dl_size), rdl(sat, dl_size)
+    net(size_t dl_size) : sat(), lra(sat), ov(sat), idl(sat, dl_size), rdl(sat, dl_size), ext(sat)
     {
         for (int i = 0; i < 6; ++i)
             values.emplace_back(new ov_val(i));
@@ -324,6 +343,25 @@ static bool exec_op(const vj::val &op)
         { // nothing to do: root-level inconsistency cannot be told apart here; a propagate follows
         }
         emit("\"e\":\"check\",\"lits\":" + jlits(ls) + ",\"ret\":" + (r ? "1" : "0"));
+    }
+    else if (e == "th_conflict")
+    { // an outside theory reports that the given literals (all false now) cannot all be false: a clause of the caller's,
+      // handed over as a conflict (backtrack to the level of its latest literal, analyse, backjump, record)
+        if (!n.stable)
+            return false;
+        auto ls = rd_lits(op["lits"]);
+        if (ls.empty())
+            return false;
+        for (const auto &l : ls)
+            if (n.sat.value(l) != False)
+                return false;
+        g_tr.hooks.push_back("{\"k\":\"clause\",\"lits\":" + jlits(ls) + ",\"ret\":1}"); // the caller's clause
+        bool r = n.ext.conflict(ls);
+        n.stable_stack.resize(n.sat.decision_level());
+        n.fresh_stack.resize(n.sat.decision_level());
+        n.stable = r;
+        root_result(r);
+        emit("\"e\":\"th_conflict\",\"lits\":" + jlits(ls) + ",\"ret\":" + (r ? "1" : "0"));
     }
     else if (e == "simplify_db")
     {
@@ -1093,6 +1131,25 @@ struct gen
                     std::shuffle(pool.begin(), pool.end(), rng);
                     std::vector<long> vals(pool.begin(), pool.begin() + n.ov_doms[bi].size());
                     run("{\"e\":\"ov_derived\",\"base\":" + std::to_string(n.ov_vars[bi]) + ",\"vals\":" + jl(vals) + "}");
+                    continue;
+                }
+            }
+            if ((profile == "sat" || profile == "mix" || profile == "reify") && !root && coin(5) && lits.size() >= 2)
+            { // a conflict reported from outside: two or three literals of the pool that are false now
+                std::vector<long> fl;
+                std::set<long> vs;
+                for (int t = 0; t < 12 && fl.size() < (size_t)(2 + rnd(2)); ++t)
+                {
+                    long p = any_lit();
+                    const lit pl = rd_lit(vj::parse(std::to_string(p)));
+                    if (variable(pl) == 0 || n.sat.value(pl) == Undefined || vs.count((long)variable(pl)))
+                        continue;
+                    vs.insert((long)variable(pl));
+                    fl.push_back(n.sat.value(pl) == False ? p : (p ^ 1));
+                }
+                if (fl.size() >= 2)
+                {
+                    run("{\"e\":\"th_conflict\",\"lits\":" + jl(fl) + "}");
                     continue;
                 }
             }
